@@ -621,7 +621,7 @@ func drawMutatedCase(t *rapid.T) *tcase {
 	base, origin := drawBase(t, imports)
 	c.base = base.src
 	nmut := 0
-	switch pick(t, "nmutk", 8, 35, 32, 25) {
+	switch pick(t, "nmutk", 8, 42, 30, 20) {
 	case 1:
 		nmut = 1
 	case 2:
@@ -629,7 +629,7 @@ func drawMutatedCase(t *rapid.T) *tcase {
 	case 3:
 		nmut = 4 + uni(t, "nmut", 5)
 	}
-	if pick(t, "level", 65, 35) == 0 {
+	if pick(t, "level", 72, 28) == 0 {
 		c.origin = origin + "+token-mutations"
 		spans := base.spans
 		for i := 0; i < nmut; i++ {
